@@ -145,7 +145,9 @@ Read(par, st, k) ==
 ReadAll(par, st) ==
   LET RECURSIVE Go(_, _, _)
       Go(s, j, ids) == IF j > par.k THEN [st |-> s, ids |-> ids]
-                       ELSE LET r == Read(par, s, j) IN Go(r.st, j + 1, Append(ids, r.id))
+                       ELSE LET r == Read(par, s, j)
+                            IN IF r.id < 0 THEN [st |-> s, ids |-> ids]     \* (forces r)
+                               ELSE Go(r.st, j + 1, Append(ids, r.id))
   IN Go(st, 1, <<>>)
 
 \* ds[k] | ds[key] | ds[k:][0] | ds.copy(freeze=True)[k] | list(ds)[k] | list(ds.items())[k][1]
@@ -217,9 +219,11 @@ FinalProbe(par, st) ==
       Go(s, j, acc) ==
         IF j > Len(order) THEN acc
         ELSE LET r == Access(par, s, order[j].path, order[j].k)
-             IN Go(r.st, j + 1,
-                   Append(acc, [path |-> order[j].path, k |-> order[j].k, exc |-> "none",
-                                tv |-> Tv(r.st, r.id), nv |-> Nv(r.st, r.id)]))
+                 o == [path |-> order[j].path, k |-> order[j].k, exc |-> "none",
+                       tv |-> Tv(r.st, r.id), nv |-> Nv(r.st, r.id)]
+             \* TLC passes operator arguments lazily: force every step, or the
+             \* whole history is evaluated as one nested thunk (stack overflow)
+             IN IF o.tv < 0 - 1 THEN acc ELSE Go(r.st, j + 1, Append(acc, o))
   IN Go(st, 1, <<>>)
 
 \* the model's observation of a whole history: [steps, final]
@@ -227,7 +231,8 @@ ModelRun(par, hist) ==
   LET RECURSIVE Go(_, _, _)
       Go(s, j, acc) == IF j > Len(hist) THEN [st |-> s, steps |-> acc]
                        ELSE LET r == ApplyStep(par, s, hist[j])
-                            IN Go(r.st, j + 1, Append(acc, r.o))
+                            IN IF r.st.clock < 0 \/ r.o.exc = "" THEN [st |-> s, steps |-> acc]
+                               ELSE Go(r.st, j + 1, Append(acc, r.o))      \* (forced)
       r == Go(InitState(par), 1, <<>>)
   IN [steps |-> r.steps, final |-> FinalProbe(par, r.st)]
 
